@@ -358,7 +358,7 @@ Proof.
     + unfold add_steps. cbn [d_st]. unfold store_message. cbn [fst].
       change (find_id (mkStore (mboxes (d_st d)) (links (d_st d)) (next_msg (d_st d) + 1)
                 (glog (d_st d)) (gused (d_st d)) (gser (d_st d))) mb) with (find_id (d_st d) mb).
-      destruct (find_id (d_st d) mb) as [m|]; [|exact I].
+      destruct (find_id (d_st d) mb) as [m|]; [|split; exact I].
       split; [exact I|]. split; [|exact I]. cbn [guard exec d_msgs with_st].
       exists (done_msg (next_msg (d_st d)) sh). split; [apply in_or_app; right; now left|]. split; [reflexivity|apply complete_done].
     + now apply guards_plain.
